@@ -19,7 +19,7 @@ func init() {
 			"(R2b) the early-return guard's truth table is exactly: killed∧¬zombie, or user∧state≠running∧¬zombie; (R3) a dead-letter emission is dominated by a condition that separates the root, so the root cannot feed itself; " +
 			"(R4) the guard actor republishes a received dead letter exactly once on the event stream; (R5) both terminal paths of an actor whose mailbox may be paused resume it (parked mail drains to dead letters); " +
 			"(R6) every failing exit of the remoting send reports the envelope, and the report emits one dead letter. " +
-			"(R7) the mailbox cache inside a reference is written only with the mailbox of a context found registered at the reference's path (never with a fallback). (R8 = C01.R2) a message accepted by Enqueue is never stranded in an idle mailbox; (R9) the registry removal routine, which deletes by path, is called only from the dying actor's own cleanup step with its own context. NOT decided: exactly-once accounting across racing sends and transitions; staleness of a correctly filled cache across name reuse.",
+			"(R7) the mailbox cache inside a reference is written only with the mailbox of a context found registered at the reference's path, a dead-lettering mailbox, or the root's own for the root's path — never with the mailbox of an actor the reference does not name; (R10) when nothing is registered at a local path the lookup yields a mailbox whose Enqueue turns the envelope into a dead letter on every path (the root's own mailbox only for the root's own path). (R8 = C01.R2) a message accepted by Enqueue is never stranded in an idle mailbox; (R9) the registry removal routine, which deletes by path, is called only from the dying actor's own cleanup step with its own context. NOT decided: exactly-once accounting across racing sends and transitions; staleness of a correctly filled cache across name reuse.",
 		Assumptions: []string{"the dead-letter emission is TellSelf(ves.DeathLetterEvent) on the system (root) context"},
 		Rules: []Rule{
 			{ID: "C03.R1", Min: 2, Desc: "mailbox lookup is total", Fn: c03Lookup},
@@ -30,7 +30,8 @@ func init() {
 			{ID: "C03.R6", Min: 2, Desc: "remote send failure is reported as a dead letter", Fn: c03RemoteFailure},
 			{ID: "C03.R8", Min: 2, Desc: "no accepted message is stranded in an idle mailbox (C01.R2 release-then-recheck)", Fn: c01Release},
 			{ID: "C03.R9", Min: 1, Desc: "a path's registry entry is removed only by the termination of the actor registered there", Fn: c03RegistryOwner},
-			{ID: "C03.R7", Min: 1, Desc: "a reference caches only the mailbox of the actor registered at its path", Fn: c03CacheSound},
+			{ID: "C03.R10", Min: 1, Desc: "an unregistered local path resolves to a dead-lettering mailbox, never to another actor's", Fn: c03Unregistered},
+			{ID: "C03.R7", Min: 1, Desc: "a reference caches only the mailbox of the actor registered at its path (or a dead-lettering one)", Fn: c03CacheSound},
 		},
 	})
 }
@@ -104,7 +105,7 @@ func c03Lookup(p *Program, r *Report) {
 				}
 			}
 		}
-		r.Check(ok && nret > 0, "lookup "+fnName(fn)+" never yields nil", fn.Pos(), fmt.Sprintf("none of the %d returns yields the nil constant: an unknown, stale or remote-disabled address falls back to the root mailbox", nret))
+		r.Check(ok && nret > 0, "lookup "+fnName(fn)+" never yields nil", fn.Pos(), fmt.Sprintf("none of the %d returns yields the nil constant: an unknown, stale or remote-disabled address still resolves to some mailbox (which one: R10, C15.R3)", nret))
 	}
 	if n < 2 {
 		r.Unresolved("mailbox lookup / remoting mailbox factory")
@@ -511,27 +512,40 @@ func c03CacheSound(p *Program, r *Report) {
 					asserted = append(asserted, ta)
 				}
 			}
-			good := len(ctxE) > 0 && g.DominatedByEdges(i, ctxE)
-			// the cached pointer designates a cell holding only that context's mailbox
-			if al, isAl := strip(newV).(*ssa.Alloc); isAl && good {
+			// the cached pointer designates a local cell; every value the cell can hold at the write is acceptable: the mailbox of
+			// the context found registered (stored under the found edge), a dead-lettering mailbox, or the root's own for the
+			// root's own path — and the cell has been assigned on every path to the write
+			mc := &mbClassifier{p: p, g: g, lc: lc, ctxE: ctxE, asserted: asserted, ownPath: ownPathEdges(p, g)}
+			good := false
+			why := ""
+			if al, isAl := strip(newV).(*ssa.Alloc); isAl {
+				stores := map[int]bool{}
 				for _, ref := range *al.Referrers() {
 					if st, isSt := ref.(*ssa.Store); isSt && st.Addr == ssa.Value(al) {
-						o := p.origins(st.Val)
-						from := false
-						for _, ta := range asserted {
-							if mc, isC := strip(st.Val).(*ssa.Call); isC && callRecv(&mc.Call) != nil && derivesFromExtract(callRecv(&mc.Call), ta, 0) {
-								from = true
-							}
-						}
-						if !from && !allContain(o, "Context."+lc.MailboxF.Name()+"<-") {
-							good = false
-						}
+						stores[g.Idx[st]] = true
 					}
 				}
-			} else if good {
-				good = false
+				good = len(stores) > 0 && !g.Reach(g.entry(), stores, nil)[i]
+				if !good {
+					why = " (the cell may be unassigned at the write)"
+				}
+				for sn := range stores {
+					others := map[int]bool{}
+					for o := range stores {
+						if o != sn {
+							others[o] = true
+						}
+					}
+					if sn != i && !g.ReachAfter(sn, others, nil)[i] {
+						continue // overwritten before the write
+					}
+					if ok, what := mc.classify(g.Nodes[sn].(*ssa.Store).Val, sn); !ok {
+						good = false
+						why += " (may hold " + what + ")"
+					}
+				}
 			}
-			r.Check(good, "mailbox cache written in "+fnName(fn), c.Pos(), "the reference's cache is written only on the edge where the registry holds an actor context at the reference's path, with that context's mailbox: a fallback (root mailbox) is never memoised, so a reference resolved before its target exists finds the target later")
+			r.Check(good, "mailbox cache written in "+fnName(fn), c.Pos(), "the mailbox memoised in a reference is the mailbox of the actor context found registered at the reference's path, a dead-lettering mailbox, or the root's own for the root's path — never the mailbox of an actor the reference does not name (mail through the reference would be consumed by that actor)"+why)
 		}
 	}
 	if n == 0 {
@@ -584,4 +598,250 @@ func c03RegistryOwner(p *Program, r *Report) {
 	if n == 0 {
 		r.Unresolved("no call of the registry removal routine")
 	}
+}
+
+
+// c03Unregistered: "already terminated, never existed … however the sender obtained the reference": when nothing is
+// registered at a local path, the lookup must not hand the envelope to some live actor's mailbox (that actor would treat it as
+// its own: the guard ignores user messages, and a Kill would stop the root). On the registry's not-found edge every returned
+// mailbox is either one whose Enqueue turns the envelope into a dead letter on every path, or the root's own under an edge
+// asserting that the reference names the root's path.
+func c03Unregistered(p *Program, r *Report) {
+	lc := lcOrFail(p, r)
+	if lc == nil {
+		return
+	}
+	find := p.mailboxLookup(lc)
+	if find == nil {
+		r.Unresolved("mailbox lookup")
+		return
+	}
+	g := p.igx(find)
+	defer p.withGraph(g)()
+	missing := map[edge]bool{}
+	for _, ifi := range g.ifs() {
+		for _, outcome := range []bool{true, false} {
+			f, ok := condFact(ifi.Cond, outcome)
+			if !ok || !f.Bool || f.Op != token.EQL {
+				continue
+			}
+			ex, isEx := f.X.(*ssa.Extract)
+			if !isEx || ex.Index != 1 {
+				continue
+			}
+			if c, isC := ex.Tuple.(*ssa.Call); isC && calleeQual(&c.Call) == "(sync.Map).Load" {
+				missing[g.branchEdge(ifi, outcome)] = true
+			}
+		}
+	}
+	if len(missing) == 0 {
+		r.Unresolved("not-found edge of the registry lookup in the mailbox lookup")
+		return
+	}
+	mc := &mbClassifier{p: p, g: g, lc: lc, ownPath: ownPathEdges(p, g)}
+	n := 0
+	for e := range missing {
+		reach := g.Reach([]int{e.to}, nil, nil)
+		for _, ex := range g.Exits {
+			if !reach[ex] {
+				continue
+			}
+			for _, rn := range g.effectiveReturns(ex, 0) {
+				if !reach[rn] {
+					continue
+				}
+				n++
+				v := g.res(retOperand(g.Nodes[rn].(*ssa.Return), 0))
+				good, what := true, ""
+				for _, cand := range mc.valuesAt(v, rn, &e) {
+					ok, w := mc.classify(cand.v, cand.at)
+					if !ok {
+						good = false
+					}
+					if what != "" {
+						what += " / "
+					}
+					what += w
+				}
+				r.Check(good, "unregistered local path resolves to a dead-lettering mailbox", g.Nodes[rn].Pos(),
+					"on the not-found edge of the registry lookup this return yields "+what+" — never the mailbox of an actor the envelope was not addressed to")
+			}
+		}
+	}
+	if n == 0 {
+		r.Unresolved("no return reachable from the registry's not-found edge")
+	}
+}
+
+// emitsDeadLetterFor: every entry→exit path of fn tells one DeathLetterEvent whose Envelope is fn's parameter #idx, directly or
+// by handing the parameter to a module function that does.
+func (p *Program) emitsDeadLetterFor(fn *ssa.Function, idx, depth int) bool {
+	if fn == nil || depth > 2 || len(fn.Blocks) == 0 || idx >= len(fn.Params) {
+		return false
+	}
+	g := p.igx(fn)
+	prm := ssa.Value(fn.Params[idx])
+	emits := map[int]bool{}
+	for _, ts := range p.tellSitesG(g) {
+		if isDeathLetterValue(ts.Message) {
+			if e := deathLetterEnvelope(ts.Message); e != nil && g.res(e) == prm {
+				emits[g.Idx[ts.In]] = true
+			}
+		}
+	}
+	for i, in := range g.Nodes {
+		c := callOf(in)
+		if c == nil {
+			continue
+		}
+		var cands []*ssa.Function
+		if y := c.StaticCallee(); y != nil && p.inModule(y) {
+			cands = append(cands, y)
+		} else if c.IsInvoke() {
+			if n := p.CG.Nodes[in.Parent()]; n != nil {
+				for _, e := range n.Out {
+					if e.Site != nil && e.Site == in.(ssa.CallInstruction) && p.inModule(e.Callee.Func) {
+						cands = append(cands, e.Callee.Func)
+					}
+				}
+			}
+		}
+		if len(cands) == 0 {
+			continue
+		}
+		args := c.Args
+		off := 0
+		if c.IsInvoke() {
+			off = 1 // the implementation's parameter list starts with the receiver
+		}
+		for j, a := range args {
+			if g.res(a) != prm {
+				continue
+			}
+			all := true
+			for _, y := range cands {
+				if y == fn || !p.emitsDeadLetterFor(y, j+off, depth+1) {
+					all = false
+				}
+			}
+			if all {
+				emits[i] = true
+			}
+		}
+	}
+	return len(emits) > 0 && !anyIn(g.Reach(g.entry(), emits, nil), g.Exits)
+}
+
+
+// ownPathEdges: edges asserting "the reference's path is the system's own path".
+func ownPathEdges(p *Program, g *IG) map[edge]bool {
+	out := map[edge]bool{}
+	for _, ifi := range g.ifs() {
+		for _, outcome := range []bool{true, false} {
+			f, ok := condFact(ifi.Cond, outcome)
+			if ok && f.Y != nil && f.Op == token.EQL && anyContains(p.origins(f.X), "GetPath") && anyContains(p.origins(f.Y), "GetPath") {
+				out[g.branchEdge(ifi, outcome)] = true
+			}
+		}
+	}
+	return out
+}
+
+// mbClassifier judges what a mailbox value produced inside the mailbox lookup is.
+type mbClassifier struct {
+	p        *Program
+	g        *IG
+	lc       *lifecycle
+	ctxE     map[edge]bool // edges asserting that the registry value is an actor context
+	asserted []ssa.Value   // the asserted contexts
+	ownPath  map[edge]bool
+}
+
+type mbCand struct {
+	v  ssa.Value
+	at int
+}
+
+// valuesAt: the values v may denote at node `at`: v itself, or — when v is a load of a local cell assigned in several places —
+// the values of the assignments that can reach `at` without being overwritten (restricted, when via is given, to paths
+// through that edge).
+func (mc *mbClassifier) valuesAt(v ssa.Value, at int, via *edge) []mbCand {
+	g := mc.g
+	u, isU := v.(*ssa.UnOp)
+	if mi, isMI := v.(*ssa.MakeInterface); isMI {
+		u, isU = mi.X.(*ssa.UnOp)
+	}
+	if !isU || u.Op != token.MUL {
+		return []mbCand{{v, at}}
+	}
+	al, isAl := u.X.(*ssa.Alloc)
+	if !isAl || al.Referrers() == nil {
+		return []mbCand{{v, at}}
+	}
+	if _, isIface := al.Type().Underlying().(*types.Pointer).Elem().Underlying().(*types.Interface); !isIface {
+		return []mbCand{{v, at}} // a struct literal, not a variable of the mailbox interface type
+	}
+	stores := map[int]bool{}
+	for _, ref := range *al.Referrers() {
+		if st, isSt := ref.(*ssa.Store); isSt && st.Addr == ssa.Value(al) {
+			stores[g.Idx[st]] = true
+		}
+	}
+	var out []mbCand
+	for sn := range stores {
+		others := map[int]bool{}
+		for o := range stores {
+			if o != sn {
+				others[o] = true
+			}
+		}
+		after := g.ReachAfter(sn, others, nil)
+		ok := after[at]
+		if ok && via != nil {
+			// the path entry → … → at passes the edge: the assignment lies behind the edge, or before it with no other assignment
+			// between it and `at`
+			behind := g.Reach([]int{via.to}, nil, nil)[sn]
+			before := (after[via.from] || sn == via.from) && g.Reach([]int{via.to}, stores, nil)[at]
+			ok = behind || before
+		}
+		if ok {
+			out = append(out, mbCand{g.Nodes[sn].(*ssa.Store).Val, sn})
+		}
+	}
+	sort.Slice(out, func(i, j int) bool { return out[i].at < out[j].at })
+	if len(out) == 0 {
+		return []mbCand{{v, at}}
+	}
+	return out
+}
+
+func (mc *mbClassifier) classify(v ssa.Value, at int) (bool, string) {
+	p, g := mc.p, mc.g
+	v = g.res(v)
+	ct := v.Type()
+	if mi, isMI := v.(*ssa.MakeInterface); isMI {
+		ct = mi.X.Type()
+		if _, isIface := ct.Underlying().(*types.Interface); isIface {
+			v = g.res(mi.X)
+		}
+	}
+	if _, isIface := ct.Underlying().(*types.Interface); !isIface {
+		if t := namedOf(ct); t != nil {
+			if enq := p.methodNamed(t, "Enqueue"); enq != nil && len(enq.Params) == 2 && p.emitsDeadLetterFor(enq, 1, 0) {
+				return true, "a " + t.Obj().Name() + ", whose Enqueue emits a dead letter wrapping the envelope on every path"
+			}
+		}
+	}
+	// the mailbox of the context found registered, under the edge asserting it
+	if c, isC := v.(*ssa.Call); isC && callRecv(&c.Call) != nil && len(mc.ctxE) > 0 && g.DominatedByEdges(at, mc.ctxE) {
+		for _, ta := range mc.asserted {
+			if derivesFromExtract(callRecv(&c.Call), ta, 0) {
+				return true, "the mailbox of the actor context registered at the path"
+			}
+		}
+	}
+	if len(mc.ownPath) > 0 && g.DominatedByEdges(at, mc.ownPath) {
+		return true, "the root's mailbox, on the edge where the reference names the root's own path"
+	}
+	return false, strings.Join(p.origins(v), " | ")
 }
